@@ -503,6 +503,13 @@ func runC09(t failer, c c09Case) (overlap bool) {
 		if err != nil {
 			t.Fatalf("%v", err)
 		}
+		if c.CacheAlone && !reflect.DeepEqual(got[i], want) {
+			// the short cut did not predict this session's transcript (a reply may quote the session id
+			// in its text): run it alone for real before judging
+			if want, err = c09Alone(c.World, sc); err != nil {
+				t.Fatalf("%v", err)
+			}
+		}
 		if !reflect.DeepEqual(got[i], want) {
 			k := 0
 			for k < len(got[i]) && k < len(want) && got[i][k] == want[k] {
